@@ -112,6 +112,7 @@ mc_sample(const char *fmt, ...)
     fflush(mc_fp);
 }
 
+static void mc_shared_viol(void);
 /* Violations: every one is counted; at most MC_KEEP cases per signature are written. */
 #define MC_MAXSIG 256
 #define MC_KEEP 2
@@ -129,6 +130,7 @@ mc_viol(const char *sig, const char *casedesc, const char *fmt, ...)
     va_list ap;
     int i;
     mc_nviol++;
+    mc_shared_viol();
     for (i = 0; i < mc_nsig; i++)
         if (strcmp(mc_sigs[i].sig, sig) == 0)
             break;
@@ -154,6 +156,7 @@ mc_viol(const char *sig, const char *casedesc, const char *fmt, ...)
     fflush(mc_fp);
 }
 
+static long long mc_sh_viols(void);
 static void
 mc_finish(void)
 {
@@ -164,7 +167,7 @@ mc_finish(void)
         mc_json_str(mc_fp, mc_sigs[i].sig);
         fprintf(mc_fp, ",\"v\":%lld}\n", mc_sigs[i].n);
     }
-    mc_stat("violations_raw", mc_nviol);
+    mc_stat("violations_raw", mc_sh_viols() > mc_nviol ? mc_sh_viols() : mc_nviol);
     if (mc_capped)
         mc_flag("capped", 1);
     fprintf(mc_fp, "{\"t\":\"done\"}\n");
@@ -542,6 +545,145 @@ mc_bfs_replay(mc_bfs_spec *sp, const char *hist)
     }
     sp->release(sp->ctx, obj);
     return bad;
+}
+
+/* ---------- batch-forked case loop ----------
+ * The parent holds the expensive state (a decoder); cases run in forked children, a batch per child.
+ * A child that dies (sanitizer report, assertion, exit, hang) costs one case: the parent records a
+ * "crash" for the case the child had announced, with the child's stderr, and a new child continues
+ * after it.  run(i, arg) returns >0 non-trivial, 0 trivial, <0 violation (already reported). */
+#include <sys/mman.h>
+#include <sys/wait.h>
+#include <fcntl.h>
+typedef struct {
+    long long cur; /* index of the case being executed */
+    long long evals, nontriv, viol_lines;
+    long long counters[16];
+    char desc[8192];
+} mc_shared_t;
+static mc_shared_t *mc_sh;
+static const char *mc_counter_names[16];
+
+static long long
+mc_sh_viols(void)
+{
+    return mc_sh ? mc_sh->viol_lines : 0;
+}
+
+static void
+mc_shared_viol(void)
+{
+    if (mc_sh)
+        mc_sh->viol_lines++;
+}
+
+static void
+mc_case_begin(long long idx, const char *desc)
+{
+    if (mc_sh) {
+        mc_sh->cur = idx;
+        snprintf(mc_sh->desc, sizeof mc_sh->desc, "%s", desc);
+    }
+    mc_set_current(desc);
+}
+
+static void
+mc_count(int k, long long v)
+{
+    if (mc_sh)
+        mc_sh->counters[k] += v;
+}
+
+static int
+mc_fork_loop(long long first, long long end, long long step, int batch, int hang_s, int (*run)(long long, void *), void *arg)
+{
+    long long next = first;
+    char errpath[256];
+    int complete = 1;
+    if (!mc_sh) {
+        mc_sh = mmap(NULL, sizeof *mc_sh, PROT_READ | PROT_WRITE, MAP_SHARED | MAP_ANONYMOUS, -1, 0);
+        memset(mc_sh, 0, sizeof *mc_sh);
+    }
+    snprintf(errpath, sizeof errpath, "%s.child-stderr", getenv("MC_OUT") ? getenv("MC_OUT") : "/tmp/mc");
+    while (next < end) {
+        pid_t pid;
+        int st;
+        long long stop = next + (long long)batch * step;
+        if (stop > end)
+            stop = end;
+        if (mc_past_deadline()) {
+            complete = 0;
+            break;
+        }
+        fflush(mc_fp);
+        fflush(stderr);
+        mc_sh->cur = -1;
+        pid = fork();
+        if (pid == 0) {
+            long long i;
+            int fd = open(errpath, O_WRONLY | O_CREAT | O_TRUNC, 0644);
+            if (fd >= 0) {
+                dup2(fd, 2);
+                close(fd);
+            }
+            mc_nsig = 0; /* per-child signature table */
+            for (i = next; i < stop; i += step) {
+                int rc;
+                if (hang_s)
+                    alarm(hang_s);
+                rc = run(i, arg);
+                alarm(0);
+                mc_sh->evals++;
+                if (rc > 0)
+                    mc_sh->nontriv++;
+            }
+            mc_in_case = 0;
+            mc_sh->cur = -2;
+            fflush(mc_fp);
+            _exit(0);
+        }
+        if (pid < 0) {
+            perror("fork");
+            exit(2);
+        }
+        waitpid(pid, &st, 0);
+        if (mc_sh->cur == -2 && WIFEXITED(st) && WEXITSTATUS(st) == 0) {
+            next = stop;
+            continue;
+        }
+        /* the child died inside case mc_sh->cur (or before announcing one) */
+        {
+            char buf[6000];
+            size_t n = 0;
+            FILE *ef = fopen(errpath, "r");
+            const char *kind = WIFSIGNALED(st) ? (WTERMSIG(st) == SIGALRM ? "hang" : "signal")
+                : WEXITSTATUS(st) == 98                                  ? "hang"
+                : WEXITSTATUS(st) == 97                                  ? "sanitizer"
+                : WEXITSTATUS(st) == 99                                  ? "abort"
+                                                                         : "exit";
+            buf[0] = 0;
+            if (ef) {
+                /* keep the head of the report (the error line and the first frames) */
+                n = fread(buf, 1, sizeof buf - 1, ef);
+                buf[n] = 0;
+                fclose(ef);
+            }
+            if (mc_sh->cur < 0) {
+                fprintf(stderr, "child died outside a case: %s\n", buf);
+                exit(2);
+            }
+            fprintf(mc_fp, "{\"t\":\"crash\",\"kind\":\"%s\",\"rc\":%d,\"case\":", kind, WIFEXITED(st) ? WEXITSTATUS(st) : -WTERMSIG(st));
+            mc_json_str(mc_fp, mc_sh->desc);
+            fprintf(mc_fp, ",\"stderr\":");
+            mc_json_str(mc_fp, buf);
+            fprintf(mc_fp, "}\n");
+            fflush(mc_fp);
+            mc_sh->evals++;
+            next = mc_sh->cur + step;
+        }
+    }
+    unlink(errpath);
+    return complete;
 }
 
 /* small argv helpers */
